@@ -46,6 +46,7 @@ def unhex (s : String) : Option String :=
       match hexNib a, hexNib b with
       | some x, some y => go rest (acc.push (UInt8.ofNat (x * 16 + y)))
       | _, _ => none
+  if s = "." then some "" else
   match go s.toList ByteArray.empty with
   | none => none
   | some ba => String.fromUTF8? ba
@@ -442,7 +443,7 @@ def process (st : State) (line : String) : State × String :=
   | ["toy.snap"] => (st, toyStr st.toy)
   | ["toy.enc", op, a] =>
     match op.toNat?, a.toNat? with
-    | some o, some x => (st, toString (Toy.encode { opcode := o % 16, addr := x % 4096 }))
+    | some o, some x => (st, toString (Toy.encode (Toy.decode ((o % 16) * 4096 + x % 4096))))
     | _, _ => (st, "bad-op")
   | ["toy.dec", w] =>
     match w.toNat? with
